@@ -36,6 +36,9 @@ def choose_fonts(seed, k):
         ("colour", lambda e: bool({"COLR", "CBDT", "sbix", "SVG ", "EBDT"} & set(e["tables"]))),
         ("hinted", lambda e: bool({"fpgm", "prep", "cvt "} & set(e["tables"]))),
         ("aots", lambda e: "/aots/" in e["id"]),
+        ("generated", lambda e: bool(e.get("generated"))),
+        ("generated-bitmap", lambda e: bool(e.get("generated")) and "EBDT" in e["tables"]),
+        ("generated-os2", lambda e: bool(e.get("generated")) and "kern" in e["tables"]),
     ]
     out = []
     seen = set()
